@@ -81,6 +81,12 @@ add("C16", "model_checking",
     "Trusted: the payoff formula in mc/checks/c16.py. Open bar = on the hour and present in the option data.",
     "DESIGN.md §5 C16")
 
+add("C17", "model_checking",
+    "exhaustive product of pool states x tokens x amounts x operation sequences on the real GmxMarket / GmxV2Market against the Vault / GlpManager rules in integer arithmetic (v1) and the deposit / withdrawal rules (v2)",
+    "v1: price / AUM / supply variants x 3 tokens (18, 18 and 6 decimals) x USDG of the traded token far below / below / at / above / far above its target x amounts (tiny, a tenth of the gap, crossing the target, three targets): fee in [0, 85] bp and within 1 bp of Vault.getFeeBasisPoints, minted / redeemed amounts = the contract's floor formulas at the fee charged, wallet and holding bookkeeping, same-token round trips and all buy / sell sequences up to length 3 (4 thorough) closed by a full sale never return more than paid, over-redemption rejected, per-bar reward = interval x 60 x held / supply. v2: 4 pool shapes x 3 impact pools x 10 deposit shapes: GM minted = pool value per share with fee factors and impact capped by the impact pool, redeemed amounts, balance split, over-withdrawal rejected, round trips non-profitable whenever the capped positive impact does not exceed the fees.",
+    "Trusted: the reference calculators in mc/worlds/gmx.py (integer Vault rule; v2 in floats, 1e-9). v2 round trips with protocol-paid positive impact above the fees are counted, not judged. One rounding step of the token is allowed on minted / redeemed amounts.",
+    "DESIGN.md §5 C17")
+
 _PENDING = "check not built yet in this round (planned: bounded exhaustive exploration, see DESIGN.md §5); listed here until its check is registered"
 for _i in range(1, 21):
     _p = f"C{_i:02d}"
